@@ -6,5 +6,5 @@ git -C /repo worktree add -q --detach $d HEAD || exit 2
 git -C $d apply /verif/seeded/$seed/patch.diff || { git -C /repo worktree remove --force $d; exit 2; }
 cd /verif
 H=${VERIF_HARNESS:-/verif/harness_dev}
-VERIF_REPO=$d VERIF_REGISTRY=${VERIF_REGISTRY:-registry_dev} VERIF_HARNESS=$H VERIF_NO_EVIDENCE=1 ./vcheck $chk $tier 2>&1 | grep -A2 "^VIOLATION\|^BROKEN\|^\[$chk\] [a-z]" | cut -c1-500
+VERIF_REPO=$d VERIF_HARNESS=$H VERIF_NO_EVIDENCE=1 ./vcheck $chk $tier 2>&1 | grep -A2 "^VIOLATION\|^BROKEN\|^\[$chk\] [a-z]" | cut -c1-500
 git -C /repo worktree remove --force $d
